@@ -32,7 +32,7 @@ DATA = [
 ATOMS = ["a", "b", "c", "x == 1", "y != 's'", "x < n", "arr contains 3", "site.title == 'T'", "true", "false", "nil", "x <= 2", "y == empty", "y == blank"]
 STRINGS = ["'plain'", '"dq"', "'has \"dq\" inside'", '"has \'sq\' inside"', "'back\\slash'", "'two\\\\slashes'", "'line\nbreak'", "'tab\there'", "''", "' '", "'%}{{'", "'ünï'"]
 PATHS = ["x", "site.title", "site['title']", 'site["a b"]', "site[k]", "site.pages[0].t", "site.pages[n].t", "site[site.k]", "['x']", "['site'].title", "site['a.b']", "arr[0]", "arr[-1]", "arr.first", "arr.size", "site.pages.first.t",
-         "site['pages'][0]['t']", "site[ 'title' ]", "x.y.z"]
+         "site['pages'][0]['t']", "site[ 'title' ]", "x.y.z", "site['back\\slash']", "site['new\nline']", "site[\"it's\"]", "['a b']", "['a b'].c", "site['q\"uote']", "[k]", "[site.k]", "a-b.c-d", "['a']", "site['a-b']", "site['0']", "site['']"]
 FILTERS = ["upcase", "append: 'z'", "append: y", "default: 'd'", "default: 'd', allow_false: true", "slice: 0, 2", "replace: 'a', 'b'", "join: ', '", "plus: 1 | times: 2", "truncate: 5, '..'", "date: '%Y'", "split: ',' | first", "default: site.title"]
 
 
